@@ -181,6 +181,18 @@ func (c *shardCtl) view() *shardView {
 	return &shardView{v.IsLeader, v.Term, int32(v.Status), v.Wal, v.DB, v.CommitOffset, v.HeadOffset}
 }
 
+// committedUpTo: the leader's quorum commit offset, or what its DB has applied if that is
+// more (a leader with RF 1 that has just replayed its log has not advanced the tracker yet).
+func committedUpTo(v *shardView) int64 {
+	c := v.CommitOffset
+	if v.DB != nil {
+		if dbc, err := v.DB.ReadCommitOffset(); err == nil && dbc > c {
+			c = dbc
+		}
+	}
+	return c
+}
+
 type shardView struct {
 	IsLeader     bool
 	Term         int64
@@ -237,7 +249,7 @@ func (c *shardCtl) foldNew() (*proto.WriteResponse, []refPutOutcome, error) {
 	var last *proto.WriteResponse
 	var lastOut []refPutOutcome
 	for _, e := range ents {
-		if e.Offset > v.CommitOffset {
+		if e.Offset > committedUpTo(v) {
 			break // not committed (yet)
 		}
 		if c.onFold != nil {
